@@ -78,6 +78,52 @@ static std::string run_generic(const std::string& ad, const std::string& cat, bo
                                const std::string& orig)
 {
     Out o;
+    if (ad == "er")
+    {
+        // enumerate(reverse(c)): the object returned by reverse() is moved into the enumerate adaptor
+        if (cat == "lv")
+        {
+            for (auto p : nitro::lang::enumerate(nitro::lang::reverse(c)))
+                o.add(p.index(), val_of(p.value()), true);
+        }
+        else if (cat == "const")
+        {
+            const C& cc = c;
+            for (auto p : nitro::lang::enumerate(nitro::lang::reverse(cc)))
+                o.add(p.index(), val_of(p.value()), true);
+        }
+        else
+        {
+            C tmp = c;
+            for (auto p : nitro::lang::enumerate(nitro::lang::reverse(std::move(tmp))))
+                o.add(p.index(), val_of(p.value()), true);
+        }
+        return fin(o, orig);
+    }
+    if (ad == "rm")
+    {
+        // the owning adaptor returned for a temporary is itself moved (heap, then back) before the loop
+        C tmp = c;
+        auto r = nitro::lang::reverse(std::move(tmp));
+        auto heap = std::make_unique<decltype(r)>(std::move(r));
+        auto r2 = std::move(*heap);
+        heap.reset();
+        for (auto& x : r2)
+            o.add(0, val_of(x), false);
+        return fin(o, orig);
+    }
+    if (ad == "ep")
+    {
+        // hand-written loop advancing with post-increment
+        auto e = nitro::lang::enumerate(c);
+        std::size_t guard = 0;
+        for (auto it = e.begin(); it != e.end() && guard < 100; it++, guard++)
+        {
+            auto p = *it;
+            o.add(p.index(), val_of(p.value()), true);
+        }
+        return fin(o, orig);
+    }
     if (ad == "e")
     {
         if (cat == "lv")
